@@ -179,4 +179,13 @@ def checkptOnlyLiar (ps : List PeerSpec) : Bool :=
 def emptyHeadersPeer (ps : List PeerSpec) : Bool :=
   ps.any fun p => p.kind == .emptyHeaders
 
+/-- Recorded finding 4 (F12 of the block manager, `detectBadPeers` returns after its
+first phase): a peer whose false filter header is backed by a matching false
+filter took part together with a peer that can fail to answer the filter request
+(it disconnects or is silent); the self-consistent liar is then never checked
+against the block and its header may be the one that is committed. -/
+def earlyReturnShape (ps : List PeerSpec) : Bool :=
+  (ps.any fun p => p.kind == .liarCFHeaders && p.variant == "consistent" && p.lied) &&
+  (ps.any fun p => p.kind == .disconnectAt || p.kind == .silent)
+
 end Neutrino.Converge
